@@ -253,6 +253,9 @@ def install_engine_dtype(I):
 def attr(o: Obj, name):
     """current value of attribute `name` of a heap object (materialising lazily typed fields of pre-existing
     objects, following lazy copies); MISSING when the object has no such attribute"""
+    a = getattr(o, "alias_of", None)
+    if a is not None:  # `o.__dict__ = a.__dict__`: o's attributes ARE a's
+        return attr(a, name)
     if name in o.attrs:
         return o.attrs[name]
     if name in getattr(o, "deleted", ()):
